@@ -31,10 +31,14 @@ fn strategy(tier: Tier) -> BoxedStrategy<Case> {
         1 => tree::wide_strategy(tier == Tier::Thorough),
     ]
     .prop_flat_map(|(opts, tree)| {
-        prop_oneof![7 => Just(true), 1 => Just(false)].prop_map(move |record_owner| Case {
-            opts,
-            tree: tree.clone(),
-            record_owner,
+        (prop_oneof![7 => Just(true), 1 => Just(false)], prop::option::weighted(0.25, (any::<u16>(), any::<u16>()))).prop_map(move |(record_owner, twins)| {
+            // a quarter of the trees hold two files equal in every respect, written as hard
+            // links of one another
+            let mut tree = tree.clone();
+            if let Some((i, j)) = twins {
+                tree::make_twins(&mut tree, i, j);
+            }
+            Case { opts, tree, record_owner }
         })
     })
     .boxed()
@@ -45,7 +49,9 @@ fn run(case: &Case, cx: &mut Cx) -> CaseResult {
     let arch = cx.dir("arch");
     std::fs::create_dir_all(cx.dir("r")).unwrap();
     let dest = cx.dir("r").join("dest");
+    tree::set_link_twins(true);
     tree::materialise(&case.tree, &src);
+    tree::set_link_twins(false);
     let c = ops::create_archive(&arch);
     ensure!(c.clean(), "C01/create-archive", "{}", c.describe());
 
